@@ -328,3 +328,49 @@ Proof.
            replace (i + S k)%nat with (S i + k)%nat by lia. auto.
         -- intros s' Ho l' d' s0 Hn. cbn [nth_error] in Hn. exact (Hrest s' Ho l' d' s0 Hn).
 Qed.
+
+(* ---------- C02: single-byte corruption ---------- *)
+(* the parser's view of a line of the form  tag-block start body '*' hex tail  with no '*' in body:
+   whatever it accepts, the checksum it verified is XOR(body) against the value read from hex *)
+Lemma parse_of_explicit_shape c q tb start body hex tail raw s ck :
+  tag_block tb -> start = 33 \/ start = 36 -> no_byte 42 body -> hex_run hex tail ->
+  parse_nmea_sentence c q (tb ++ start :: body ++ 42 :: hex ++ tail) = Ok (raw, s, ck) ->
+  raw = body /\ ck = checksum_read hex.
+Proof.
+  intros Htb Hst Hns Hrun. unfold parse_nmea_sentence.
+  rewrite skip_tag_block_complete; [|exact Htb|destruct Hst as [->| ->]; discriminate].
+  replace ((start =? 33) || (start =? 36)) with true by (destruct Hst as [->| ->]; reflexivity).
+  rewrite (take_until_complete 42 body _ Hns).
+  destruct (parse_ais_sentence c q (body ++ 42 :: hex ++ tail)) as [[msg rest]|e|p] eqn:PA; cbn [rbind]; try discriminate.
+  destruct (tag1 42 rest) as [[[] rest']|e|p] eqn:T; cbn [rbind]; try discriminate.
+  apply tag1_spec in T. subst rest.
+  destruct (Nat.eqb_spec (length (body ++ 42 :: hex ++ tail) - length rest') (length body + 1)) as [Hlen|Hlen]; cbn [negb]; [|discriminate].
+  destruct (hex_u32 rest') as [[ck' r]|e|p] eqn:HX; cbn [rbind]; try discriminate.
+  destruct (negb (ck' <=? 255)); [discriminate|]. intros [= <- <- <-]. split; [reflexivity|].
+  (* the fields end exactly at the first '*', so what follows is hex ++ tail *)
+  destruct (parse_ais_sentence_inv _ _ _ _ _ PA) as (f & Hdata & _).
+  assert (Hl : length (body_bytes f) = length body).
+  { apply (f_equal (@length N)) in Hdata. rewrite !app_length in Hdata. cbn [length] in Hdata.
+    rewrite app_length in Hlen. cbn [length] in Hlen. lia. }
+  symmetry in Hl. destruct (app_same_length_inv _ _ _ _ Hdata Hl) as [_ Hr]. injection Hr as Hr. subst rest'.
+  destruct (hex_u32_complete hex tail Hrun) as (r' & Hh). rewrite Hh in HX. injection HX as <- _. reflexivity.
+Qed.
+
+(* one byte of the body of an accepted line replaced by a different byte that is not '*':
+   the corrupted line is never accepted, from any state *)
+Theorem corrupted_body_rejected c q st d tb start a x y b hex tail :
+  tag_block tb -> start = 33 \/ start = 36 -> hex_run hex tail ->
+  no_byte 42 (a ++ x :: b) -> y <> 42 -> x <> y ->
+  xor_fold (a ++ x :: b) = checksum_read hex ->          (* the original line's checksum was right *)
+  forall fr, snd (step c q st (tb ++ start :: (a ++ y :: b) ++ 42 :: hex ++ tail) d) <> Ok fr.
+Proof.
+  intros Htb Hst Hrun Hns Hy Hxy Hsum fr Hok.
+  assert (Hns' : no_byte 42 (a ++ y :: b)).
+  { intros z Hz. apply in_app_or in Hz. destruct Hz as [Hz|[<-|Hz]]; [apply Hns; apply in_or_app; left; exact Hz|exact Hy|
+      apply Hns; apply in_or_app; right; right; exact Hz]. }
+  rewrite step_spec in Hok.
+  destruct (parse_nmea_sentence c q _) as [[[raw s] ck]|e|p] eqn:E; try discriminate.
+  destruct (parse_of_explicit_shape c q tb start (a ++ y :: b) hex tail raw s ck Htb Hst Hns' Hrun E) as [-> ->].
+  destruct (N.eqb_spec (checksum_read hex) (xor_fold (a ++ y :: b))) as [Heq|Hne]; [|discriminate].
+  apply (xor_single_change a x y b Hxy). congruence.
+Qed.
